@@ -71,3 +71,4 @@ func (p *SymElemPtr) storeVal(m *Machine, v Value) {
 		m.store(&p.arr[i], term.Ite(term.Eq(p.idx, term.Const(64, uint64(i))), nv, old))
 	}
 }
+
